@@ -167,4 +167,13 @@ func TestLengths(t *testing.T) {
 	R.Exhaustive("lengths: every payload length 1..1023 (frame, back-to-back frame full of 0xD3, 1-byte junk, frame)")
 }
 
+// Independent handlers framing independent streams at the same time.
+func genPar(t *rapid.T) Case {
+	return Case{Stream: gen.CleanStream(t, 8, 60, true), InCap: rapid.SampledFrom([]int{0, 1, 16}).Draw(t, "inCap")}
+}
+
+var propParallel = stats.ParallelProp(R, "parallel", genPar, check, 4)
+
+func TestParallel(t *testing.T) { rapid.Check(t, propParallel) }
+
 func TestReplay(t *testing.T) { R.Replay(t) }
